@@ -249,19 +249,31 @@ def exprsVars : List Expr → List String
   | [] => []
   | e :: es => e.vars ++ exprsVars es
 
-/-- `collect_output_variables_recursive`. A chained `NodeScan` hands on what its input binds.
-Still an approximation in both directions: `Project` reports its aliases *and* everything bound
-below it (also what it drops), `Return` reports only what is bound below it (not its aliases),
-`Aggregate` reports the variables of its grouping expressions, an `Expand` does not report its
-path-length column, operators outside the list (`LeftJoin`, `Unwind`, …) report nothing. -/
+/-- what a projection / return list reports: its aliases and its bare (unaliased) variables -/
+def handedOn : List Item → List String
+  | [] => []
+  | (_, some a) :: rest => a :: handedOn rest
+  | (.var x, none) :: rest => x :: handedOn rest
+  | (_, none) :: rest => handedOn rest
+
+/-- `collect_output_variables_recursive` (after cc52572). A chained `NodeScan` hands on what its
+input binds; `Project` and `Return` report exactly their aliases and bare variables and are not
+descended into; a semi/anti join reports its left side only. Still an approximation: `Aggregate`
+reports the variables of its grouping expressions (not the generated column names), an `Expand`
+does not report its path-length column, unaliased computed items and operators outside the list
+(`LeftJoin`, `Unwind`, `ShortestPath`, …) report nothing. -/
 def outVars : Plan → List String
   | .scan v _ => [v]
   | .scanIn v _ i => v :: outVars i
   | .expand s i => s.dst :: (s.edge.toList ++ outVars i)
   | .filter _ i => outVars i
-  | .project items i => items.filterMap (·.2) ++ outVars i
-  | .ret _ _ i => outVars i
-  | .join _ _ l r => outVars l ++ outVars r
+  | .project items _ => handedOn items
+  | .ret _ items _ => handedOn items
+  | .join ty _ l r =>
+    match ty with
+    | .semi => outVars l
+    | .anti => outVars l
+    | _ => outVars l ++ outVars r
   | .limit _ i => outVars i
   | .skip _ i => outVars i
   | .sort _ i => outVars i
@@ -731,21 +743,27 @@ def itemsClean (items : List Item) : Bool :=
   items.all (fun it => it.2.isSome || (it.1 == .var (itemName it)) ||
     !items.any (fun jt => jt.1 == .var (itemName it)))
 
-/-- plan-wide sufficient condition for `wfPush`: the variable analysis is exact where the guards
-rely on it (no over-report below an `Expand` and in a join's left input, no under-report in a
-join's left input) and projection lists are clean. Chained scans are not entered: neither is the
-rewrite. -/
+/-- an `Aggregate` reports the variables of its grouping expressions; this asks that they all be
+columns of it (true when every grouping expression is a bare variable) -/
+def aggExact (gb : List Expr) (aggs : List AggSpec) : Bool :=
+  (exprsVars gb).all (fun v => (gb.map (fun e => itemName (e, none)) ++ aggs.map aggName).contains v)
+
+/-- plan-wide sufficient condition for `wfPush`. After cc52572 `outVars` over-reports only at
+`Aggregate`s with a computed grouping expression (`aggExact` excludes them; everything else is
+*proved* not to over-report: `noOver_of_wfScope`). What has to be assumed besides: no under-report
+in a join's left input (`noUnder`), clean projection lists (`itemsClean`). -/
 def wfScope : Plan → Bool
-  | .expand _ i => noOver i && wfScope i
-  | .join _ _ l r => noOver l && noUnder l && wfScope l && wfScope r
+  | .expand _ i => wfScope i
+  | .join _ _ l r => noUnder l && wfScope l && wfScope r
   | .project items i => itemsClean items && wfScope i
   | .ret _ items i => itemsClean items && wfScope i
+  | .agg gb aggs _ i => aggExact gb aggs && wfScope i
+  | .scanIn _ _ i => wfScope i
   | .filter _ i => wfScope i
   | .limit _ i => wfScope i
   | .skip _ i => wfScope i
   | .sort _ i => wfScope i
   | .distinct _ i => wfScope i
-  | .agg _ _ _ i => wfScope i
   | _ => true
 
 /-! ## join reordering: checker -/
